@@ -243,15 +243,26 @@ def _chain(case, work):
         pw = src['pw'] if kind == 'clone' else PASSWORDS[link['pw'] % len(PASSWORDS)]
         before = dict(store.objects)
         try:
-            key = world.add_key(backend, world.Cred(src['pw'], src['key']), new_password=pw,
-                                shared=kind in ('shared', 'clone'), settings={'encryption': {'kdf': dict(link['kdf'])}})
+            key, printed = world.add_key(backend, world.Cred(src['pw'], src['key']), new_password=pw,
+                                         shared=kind in ('shared', 'clone'), settings={'encryption': {'kdf': dict(link['kdf'])}},
+                                         return_printed=True)
         except Exception:
             classes.append('add-key-rejected')
             if store.objects != before:
                 return Outcome(fail('rejected-but-touched', 'rejected add-key changed the backend'), classes)
             continue
         classes.append('add-key:' + kind)
-        users.append({'pw': pw, 'key': key, 'family': src['family'] if kind != 'independent' else len(users) + 100})
+        # without an output path the new key is printed: that text is what the user saves and uses from then on
+        start = printed.find('{')
+        try:
+            printed_key = printed[start:].strip().encode()
+            from .. import refimpl
+            if refimpl.loads(printed_key) != refimpl.loads(key):
+                return Outcome(fail('printed-key', f'the key add-key printed differs from the key it returned (kind={kind}): private section '
+                                    f'is {type(refimpl.loads(printed_key).get("private")).__name__} in the printed one'), classes, True)
+        except Exception as e:
+            return Outcome(fail('printed-key', f'add-key did not print a usable key: {type(e).__name__}: {e}'), classes, True)
+        users.append({'pw': pw, 'key': printed_key, 'family': src['family'] if kind != 'independent' else len(users) + 100})
     # every key works with its own password and with no other
     for i, u in enumerate(users):
         for pw in sorted({x['pw'] for x in users} | set(PASSWORDS)):
